@@ -48,6 +48,8 @@ def configs(tier, seed):
     if not q:
         out.append(dict(name="blocks nS=2 nT=2 D=1 N=3 (sampled structures)", h="blocks", nS=2, nT=2, D=1, N=3, sample=40))
     out.append(dict(name="sweep order", h="sweep", nS=2, nT=2, D=1))
+    for d in ((3,) if q else (3, 4)):
+        out.append(dict(name="embedding-scale block D=%d" % d, h="taublock", nS=2, nT=1, D=d, N=0))
     for d in ((1, 2) if q else (1, 2, 3)):
         out.append(dict(name="mvn contract D=%d" % d, h="mvn", D=d))
     out.append(dict(name="exported sample", h="export", nS=2, nT=2, D=1, N=2))
@@ -393,6 +395,44 @@ def h_blocks(ctx, cfg):
     return [cl, d1, d2]
 
 
+def _check_tau_block(ctx, G, m, P, nS, D, N, np):
+    gam_pre = m.gam.tolist()
+    start = len(G.log)
+    m._prec_W_step()
+    gdraws = [p for (meth, p) in G.log[start:] if meth == "gamma"]
+    ctx.prove(len(gdraws) == D, "embedding scales: one gamma draw per dimension", key="tau: draws")
+    gam_post = m.gam.tolist()
+    for d in range(min(D, len(gdraws))):
+        shape, scale = gdraws[d]
+        g = [gam_post[k] if k < d else gam_pre[k] for k in range(D)]  # earlier factors already hold their new values
+        acc = 0.0
+        for l in range(d, D):
+            tl = 1.0
+            for k in range(l + 1):
+                if k != d:
+                    tl = tl * g[k]
+            for c in range(nS):
+                acc = acc + tl * P["W"][c][l] * P["W"][c][l]
+        a_prior = 2.0 if d == 0 else 3.0
+        ctx.prove(ctx.eq(shape, a_prior + 0.5 * nS * (D - d)), "gam[%d]: gamma shape = prior shape + (entries scaled by it)/2" % d, key="tau: shape")
+        ctx.prove(ctx.eq(scale * (1.0 + 0.5 * acc + 1e-3), 1.0), "gam[%d]: gamma rate = 1 + weighted sum of squares / 2" % d, key="tau: rate")
+    lo = 1.0 / np.sqrt(1.0 + N)
+    tau = m.tau.tolist()
+    run = 1.0
+    for d in range(D):
+        run = run * gam_post[d]
+        ctx.prove(ctx.And(tau[d] >= lo, tau[d] <= 1e6), "embedding scales stay inside [1/sqrt(1+n_obs), 1e6]", key="tau: bounds")
+        ctx.prove(ctx.Or(run < lo, run > 1e6, ctx.eq(tau[d], run)), "embedding scale d is the running product of the factors (unless clipped)", key="tau: product")
+
+
+def h_taublock(ctx, cfg):
+    sc = ctx.mod("batchie.models.sparse_combo")
+    with ctx.global_rng() as G:
+        m, ys, cl, d1, d2, P0, H0 = _mk_state(ctx, sc, cfg)
+        _check_tau_block(ctx, G, m, _params(m), cfg["nS"], cfg["D"], 0, ctx.np)
+    return cfg["D"]
+
+
 def h_sweep(ctx, cfg):
     sc = ctx.mod("batchie.models.sparse_combo")
     with ctx.global_rng() as G:
@@ -505,4 +545,4 @@ def h_export(ctx, cfg):
 
 
 def run(ctx, cfg):
-    return {"blocks": h_blocks, "sweep": h_sweep, "mvn": h_mvn, "export": h_export}[cfg["h"]](ctx, cfg)
+    return {"blocks": h_blocks, "sweep": h_sweep, "mvn": h_mvn, "export": h_export, "taublock": h_taublock}[cfg["h"]](ctx, cfg)
